@@ -120,6 +120,16 @@ class RenderNode(Node):
 
                 for itm in forloop:
                     namespace[key] = itm
+                    # Every iteration gets a context of its own. Variables, counters
+                    # and cycles set while rendering one item are not visible to the
+                    # next.
+                    ctx = context.copy(
+                        token=self.token,
+                        namespace=namespace,
+                        disabled_tags=self.disabled,
+                        carry_loop_iterations=True,
+                        template=template,
+                    )
                     character_count += template.render_with_context(
                         ctx, buffer, partial=True, block_scope=True
                     )
@@ -182,6 +192,13 @@ class RenderNode(Node):
 
                 for itm in forloop:
                     namespace[key] = itm
+                    ctx = context.copy(
+                        token=self.token,
+                        namespace=namespace,
+                        disabled_tags=self.disabled,
+                        carry_loop_iterations=True,
+                        template=template,
+                    )
                     character_count += await template.render_with_context_async(
                         ctx, buffer, partial=True, block_scope=True
                     )
